@@ -35,6 +35,8 @@ HOLDERS = [
     "José Álvarez", "张三", "R&D, Ltd.", "O'Reilly & Sons", "Jane (maintainer)", "GmbH & Co. KG", "The FOO Project Developers",
     "Ünïcödé Ltd.", "Jane Doe, John Doe", "x/y contributors", "Jane #1", "Müller + Söhne", "Ιωάννης Π.", "Eric", "Doe; Jane",
     "a.b@c.d", "Team «Rocket»", "J", "Açaí — Coop", "\U0001F600 Smile Corp",
+    # holders that begin like a copyright tag glued to more letters: holders like any other (no white space after the tag)
+    "Copyrighted Works Ltd.", "©tudio Ñandú GmbH", "(C)ompany & Sons",
 ]
 # holders that are themselves notices (kept verbatim by make_copyright_line)
 NOTICE_HOLDERS = ["Copyright 2019 Other Org", "SPDX-FileCopyrightText: 2018 Third Party", "© 2017 Fifth Ltd."]
@@ -201,6 +203,147 @@ def rand_request(rng, tricky=0.0):
 
 
 # --------------------------------------------------------------------------
+# trees for `annotate --recursive DIR`
+
+TREE_DIRS = ["src", "src/pkg", "src/pkg/deep/er", "docs", "my docs/sub dir", "données", "a.d", "lib.py", "x/y/z"]
+SIBLINGS = [
+    "",                                                                                       # an empty FILE.license
+    "SPDX-FileCopyrightText: 2001 Sibling Holder\n\nSPDX-License-Identifier: Zlib\n",
+    "SPDX-FileCopyrightText: 2019 Old Owner\n",
+    "SPDX-License-Identifier: ISC\n",
+    "SPDX-FileContributor: Sibling Hand\n",
+    "SPDX-FileCopyrightText: 2001 Sibling Holder\nSPDX-FileContributor: Sibling Hand\n\nSPDX-License-Identifier: Zlib\n",
+    "SPDX-FileCopyrightText: 2001 Sibling Holder\r\n\r\nSPDX-License-Identifier: Zlib\r\n",
+]
+
+
+def under(name, path):
+    """is the file `name` (posix, relative to the project) below the directory argument `path`, or named by it?"""
+    norm = os.path.normpath(path)
+    if norm == ".":
+        return True
+    return os.path.normpath(name) == norm or os.path.normpath(name).startswith(norm + os.sep)
+
+
+def rand_tree(rng, entries, n_files):
+    """A project tree for one recursive run: commentable files of table types, binary files, files of unrecognised and of
+    uncommentable types, in nested directories, each with or without an existing FILE.license (empty, or holding
+    information).  Returns the list of file records (the `files` of an e2e case)."""
+    dirs = rng.sample(TREE_DIRS, rng.randint(1, 3)) + [""]
+    files, seen = [], set()
+    for _ in range(n_files):
+        d = rng.choice(dirs)
+        r = rng.random()
+        if r < 0.62:
+            kind, key, style = rng.choice(entries)
+            body, planted = rand_body(rng, style)
+            f = {"name": name_for(kind, key), "body": body or "payload = 1\n", "entry": [kind, key, style], "kind": "table"}
+        elif r < 0.80:
+            kind, key, style = rng.choice(entries)
+            f = {"name": name_for(kind, key), "hex": rng.choice(BINARY_BODIES).hex(), "entry": [kind, key, style], "kind": "binary"}
+        else:
+            body, planted = rand_body(rng, None)
+            f = {"name": rng.choice(UNRECOGNISED), "body": body or "payload\n", "kind": "unrecognised"}
+        f["name"] = (d + "/" if d else "") + f["name"]
+        low = f["name"].lower()
+        if low in seen or any(low.startswith(x + "/") or x.startswith(low + "/") for x in seen):
+            continue
+        seen.add(low)
+        if rng.random() < 0.45:
+            f["sib"] = rng.choice(SIBLINGS)
+        files.append(f)
+    return files
+
+
+def tree_case(rng, entries, n_files=6):
+    """One recursive e2e case: a tree, the path arguments (directories, spelled in several ways, now and then a file
+    named directly next to them), the options, the request; every file record carries `scope` (generator's ground
+    truth: is it named, or below a named directory?)."""
+    files = rand_tree(rng, entries, n_files)
+    top = sorted({f["name"].split("/")[0] for f in files if "/" in f["name"]})
+    dirs = sorted({os.path.dirname(f["name"]) for f in files if "/" in f["name"]})
+    r = rng.random()
+    if r < 0.25 or not top:
+        paths = ["."]
+    elif r < 0.55:
+        paths = rng.sample(top, rng.randint(1, len(top)))
+    else:
+        paths = rng.sample(dirs, rng.randint(1, min(2, len(dirs))))
+    spell = rng.random()
+    if spell < 0.15:
+        paths = ["./" + p for p in paths]
+    elif spell < 0.3:
+        paths = [p + "/" for p in paths]
+    elif spell < 0.4 and top:
+        paths = [top[0] + "/../" + p for p in paths]
+    loose = [f["name"] for f in files if not any(under(f["name"], p) for p in paths)]
+    if loose and rng.random() < 0.3:
+        paths.append(rng.choice(loose))          # a file named directly, next to the directories
+    for f in files:
+        f["scope"] = any(under(f["name"], p) for p in paths)
+    o = {"prefix": rng.choice(PREFIXES), "year": rng.choice([None, "exclude", ["2019"], ["2015", "2021"]]),
+         "tmpl": rng.choice(["default"] * 5 + ["adds-text", "no-contributors", "commented"]),
+         "dot": rng.choice([None, "force", "fallback", "fallback", "skip", "skip"]),
+         "no_replace": rng.random() < 0.1, "merge": rng.random() < 0.1, "skip_existing": rng.random() < 0.05}
+    if all(f["kind"] != "unrecognised" and recognised_name(f["name"]) for f in files if f["scope"]) and rng.random() < 0.5:
+        o["dot"] = None
+    cpr, lic, con = rand_request(rng)
+    return dict(o, files=files, paths=paths, recursive=True, cpr=cpr, lic=lic, con=con)
+
+
+# --------------------------------------------------------------------------
+# headers written by hand (for --merge-copyrights histories) and the ground truth of what a history has stated
+
+#: year forms a person writes by hand and the reader knows: one year, a range with or without a blank on either side of the dash
+HAND_YEARS = ["2009-2014", "2009 -2014", "2009- 2014", "2009 - 2014", "2012", "2012,", "1998", "2003-2004", "2016 - 2019", None]
+#: holders none of which is part of another
+PLAIN_HOLDERS = ["Jane Doe <jane@example.com>", "Example, Inc.", "José Álvarez", "张三", "R&D Ltd.", "The FOO Developers"]
+
+
+def hand_notices(rng, holders):
+    """1-4 notices [[prefix option, year text, holder], ...] as found in a header somebody wrote: several of one holder (as left by
+    earlier runs without --merge-copyrights), compact and spaced ranges, single years, any of the ten prefixes."""
+    out = []
+    for _ in range(rng.choice([1, 2, 2, 3, 3, 4])):
+        t = [rng.choice(list(PREFIX_TEXT)), rng.choice(HAND_YEARS), holders[0] if rng.random() < 0.75 else rng.choice(holders)]
+        if t not in out:
+            out.append(t)
+    return out
+
+
+def notice_line(prefix, year, holder):
+    return "%s %s%s" % (PREFIX_TEXT[prefix], (year + " ") if year else "", holder)
+
+
+def year_option(year_text_):
+    """the --year / --exclude-year options that make annotate write this year text, or False when it cannot be said"""
+    if year_text_ is None:
+        return "exclude"
+    if re.fullmatch(r"\d{4}", year_text_):
+        return [year_text_]
+    m = re.fullmatch(r"(\d{4}) - (\d{4})", year_text_)
+    return [m.group(1), m.group(2)] if m else False
+
+
+def years_of(text):
+    return [int(x) for x in re.findall(r"(?<!\d)\d{4}(?!\d)", text or "")]
+
+
+def uncovered_years(text, stated):
+    """Reader-independent: `stated` = {holder: [years]} (generator's ground truth).  Every stated year must lie within the span
+    of four-digit years of some line of `text` that names the holder.  Returns a description or None."""
+    lines = re.split(r"\r\n|\r|\n", text)
+    for h, ys in stated.items():
+        named = [l for l in lines if h in l]
+        if not named:
+            return "holder %r is named nowhere" % (h,)
+        for y in sorted(set(ys)):
+            if not any(years_of(l) and min(years_of(l)) <= y <= max(years_of(l)) for l in named):
+                return "year %d stated for %r is outside every line naming the holder: %r" % (y, h, named)
+    return None
+
+
+# --------------------------------------------------------------------------
 # the end-to-end runner
 
 def annotate_args(case):
@@ -234,7 +377,7 @@ def annotate_args(case):
         args += ["--skip-unrecognised"]
     if case.get("tmpl", "default") != "default":
         args += ["--template", TEMPLATES[case["tmpl"]][0].split(".")[0]]
-    for flag, opt in (("no_replace", "--no-replace"), ("merge", "--merge-copyrights"), ("skip_existing", "--skip-existing")):
+    for flag, opt in (("no_replace", "--no-replace"), ("merge", "--merge-copyrights"), ("skip_existing", "--skip-existing"), ("recursive", "--recursive")):
         if case.get(flag):
             args.append(opt)
     return args
@@ -295,6 +438,19 @@ def lint_reading(root, names):
                     rec["lic"] = sorted({str(x) for i in infos for x in i.spdx_expressions})
             except Exception as ex:  # noqa
                 rec["readerr"] = type(ex).__name__
+        if not rec["cpr"] and not rec["lic"] and not rec["con"]:
+            # The linter reports contributors only for files that also declare copyright or licensing.  What a file that
+            # holds nothing but contributors declares is read from the place the linter would consult (FILE.license if
+            # there is one, else FILE), with the same extraction on the same window.
+            tgt = n + ".license" if os.path.isfile(os.path.join(root, n + ".license")) else n
+            try:
+                with open(os.path.join(root, tgt), "rb") as fp:
+                    raw = lint_read_bytes(fp.read())
+            except OSError:
+                raw = None
+            if raw is not None and not raw[0] and not raw[1] and raw[2]:
+                rec["con"] = sorted(raw[2])
+                rec["con_only"] = True
         out[n] = rec
     if exc is not None:
         out["__lint_exc__"] = repr(exc)[:200]
@@ -314,7 +470,7 @@ def run_in(root, case):
     before = lint_reading(root, names)
     from binaryornot.check import is_binary
     binary = {n: bool(is_binary(os.path.join(root, n))) for n in names}
-    rc, out, exc = cli.run_cli(annotate_args(case) + names, root)
+    rc, out, exc = cli.run_cli(annotate_args(case) + list(case.get("paths") or names), root)
     after_snap = snapshot_str(root)
     after = lint_reading(root, names)
     return {"rc": rc, "exc": None if exc is None else "%s: %s" % (type(exc).__name__, str(exc)[:160]),
@@ -360,9 +516,8 @@ def _covers(got_years, want_years):
 
 
 def missing(want, got, merged):
-    """What of `want` = (cpr, lic, con) is not in the reading `got` = (cpr, lic, con).  Contributors are read by
-    the linter only for files that declare copyright or licensing (reuse_info_of_file), so they are only
-    demanded then."""
+    """What of `want` = (cpr, lic, con) is not in the reading `got` = (cpr, lic, con).  (The linter reads contributors
+    only for files that declare copyright or licensing; lint_reading supplies those of a contributor-only file.)"""
     w_cpr, w_lic, w_con = want
     g_cpr, g_lic, g_con = got
     out = {}
@@ -375,7 +530,7 @@ def missing(want, got, merged):
         out["copyright"] = m
     if not w_lic <= g_lic:
         out["licence"] = sorted(w_lic - g_lic)
-    if (g_cpr or g_lic) and not w_con <= g_con:
+    if not w_con <= g_con:
         out["contributor"] = sorted(w_con - g_con)
     return out
 
@@ -448,6 +603,17 @@ def obstacle(data, want, merged):
     return None
 
 
+def recognised_name(name):
+    """Does the name select a comment style as documented: by the file name, else by the extension (= the last suffix)?
+    (An entry such as '.nim.cfg' of the extension table is not an extension in that sense: 'x.nim.cfg' has the extension
+    '.cfg'; which names resolve to which entry is the matter of C07's `styleof` stream.)"""
+    from reuse import comment
+    base = os.path.basename(name).lower()
+    if base in {k.lower() for k in comment.FILENAME_COMMENT_STYLE_MAP}:
+        return True
+    return os.path.splitext(base)[1] in {k.lower() for k in comment.EXTENSION_COMMENT_STYLE_MAP}
+
+
 def judge_file(case, f, rec, single_rc):
     """The property, for one file of one run.  `single_rc` is the exit status that belongs to this file.
     Returns None or 'kind: description' (with ' {shape=KEY}' appended when the failing input has the shape of a
@@ -482,7 +648,7 @@ def judge_file(case, f, rec, single_rc):
             info = lint_read_bytes(bytes.fromhex(had[1]), window=False) if had and had[0] == "file" else None
             if info is not None and any(info):
                 return None
-        if case.get("dot") == "skip" and f.get("kind") == "unrecognised" and not case.get("style"):
+        if case.get("dot") == "skip" and (f.get("kind") == "unrecognised" or not recognised_name(name)) and not case.get("style"):
             return None
         if not missing(want, got, merged):
             return None
